@@ -253,11 +253,29 @@ def evalN (narrow : Bool) (defs : Defs Body) : Nat → List String → Expr → 
 /-- fuel used for whole controlling expressions (nesting depth of expression + macro bodies) -/
 def FUEL : Nat := 2000
 
+/-- the expression, after macro replacement, is not an expression at all: it mentions (in an
+    evaluated or unevaluated operand alike) a macro whose body is not an expression -/
+def hasNonExpr (defs : Defs Body) : Nat → List String → Expr → Bool
+  | 0, _, _ => false
+  | _+1, _, .num _ _ => false
+  | f+1, hide, .ident n =>
+    if hide.contains n then false else
+    match defs.lookup n with
+    | some none => true
+    | some (some e) => hasNonExpr defs f (n :: hide) e
+    | none => false
+  | _+1, _, .defined _ => false
+  | f+1, h, .un _ e => hasNonExpr defs f h e
+  | f+1, h, .bin _ a b => hasNonExpr defs f h a || hasNonExpr defs f h b
+  | f+1, h, .cond c a b => hasNonExpr defs f h c || hasNonExpr defs f h a || hasNonExpr defs f h b
+
 /-- C11 6.10.1p4: the value of a controlling expression under macro table `defs` -/
-def evalTop (defs : Defs Body) (e : Expr) : Except PPErr Val := (evalN false defs FUEL [] e).1
+def evalTop (defs : Defs Body) (e : Expr) : Except PPErr Val :=
+  if hasNonExpr defs FUEL [] e then .error .notExpr else (evalN false defs FUEL [] e).1
 
 /-- chibicc: the value `eval_const_expr` computes -/
-def evalTopC (defs : Defs Body) (e : Expr) : Except PPErr Val := (evalN true defs FUEL [] e).1
+def evalTopC (defs : Defs Body) (e : Expr) : Except PPErr Val :=
+  if hasNonExpr defs FUEL [] e then .error .notExpr else (evalN true defs FUEL [] e).1
 
 /-- region of the known finding `C10-ppif-int-result-shift`: evaluating `e` by the rules of C11, some
     intermediate result that chibicc types `int` (a comparison / `!` / `&&` / `||` result, or
